@@ -134,3 +134,14 @@ def register(add, NOTE):
         "the oracle runs write -> main -> write on the real code and compares descriptions, feed impedance and the second writing.",
         "Rocq proof (attachment writer/reader, counting argument) + vm_compute correspondence + write/read/write oracle on the real code",
         "DESIGN.md §6 C15", note=NOTE + PART)
+    add("C18",
+        "Theorem: for every combination of environment (free space, perfect ground, 1..n media with linear / circular boundary and radials), "
+        "numbers of (emulated) wires, sources and loads of either family, orders of S-parameter functions, far-field (dBi, V/m, new power "
+        "level, pattern file) and near-field requests, the generated answer sequence is read completely by the prompt automaton, which "
+        "recovers exactly those counts and choices. Tie: stage `bas` runs the automaton inside Coq on the tokenised REAL generated text of "
+        "random models (BASIC versions 9/12/13) and compares with the real model; the model writer's sequence must be the real one. PARTIAL: "
+        "the values on the lines and the re-read model (pulse numbering with BASIC's exact end matching, sources in degrees, loads, media, "
+        "feed impedance for plain-wire models) are compared by an independent Python reader; the BASIC program itself is not available. "
+        "Known finding: insulated thick wires (stale i6).",
+        "Rocq proof (parser/printer round trip for the prompt automaton) + vm_compute correspondence on the real text + independent re-reading oracle",
+        "DESIGN.md §6 C18", note=NOTE + PART)
